@@ -333,44 +333,80 @@ def check_sessionkey_consumers(rep, prog, rid):
     return n
 
 
+def _selection_condition(s, recv, call):
+    """How the element `recv` (receiver of decrypt_sk) was chosen from message._sessionkeys on this path:
+    -> (bound variable, condition text) or None when the receiver is not an element of that list.
+    Understood: next(...) / [0] / iter / list / tuple around a (chain of) filtered comprehension(s), and a selection LOOP over the
+    list (the element is bound or used under the conditions decided in that iteration).  Anything else that still mentions the list
+    is an AnalysisError."""
+    from . import taint
+    t = recv
+    while True:
+        r = taint.split_args(t)
+        if r is not None and r[0] in ('next', 'iter', 'list', 'tuple') and r[1]:
+            t = r[1][0]
+            continue
+        if t.endswith('[0]') and taint._balanced(t[:-3]):
+            t = t[:-3]
+            continue
+        break
+    m = re.match(r'^EACH\((\$[\d.]+) in message\._sessionkeys(?: if (.*))?;\1\)$', t)
+    if m is not None and taint._balanced(m.group(2) or ''):
+        conds = taint._split_top(m.group(2), ' if ') if m.group(2) else ['True']
+        return m.group(1), '(' + ') and ('.join(conds) + ')'
+    if re.match(r'^\$[\d.]+$', t) and s.bound.get(t) == 'message._sessionkeys' and t in s.loops:
+        colltext, paths = s.loops[t]
+        pre = taint._split_top(colltext, ' if ')[1:]
+        alts = []
+        for facts, changed, calls, status in paths:
+            if not (any(c[4] is call[4] for c in calls) or t in changed.values()):
+                continue
+            lits = ['(%s)' % c for c in pre]
+            for ft, val, sk in facts:
+                if sk is None:
+                    continue            # except-arm markers: not a decision about the element
+                lits.append('(%s)' % ft if val else 'not (%s)' % ft)
+            alts.append(' and '.join(lits) if lits else 'True')
+        if alts:
+            return t, '(' + ') or ('.join(alts) + ')'
+    if 'message._sessionkeys' in recv or '$' in recv:
+        raise AnalysisError('PGPKey.decrypt: the session-key packet is selected in a way the rule cannot read: %s' % recv[:160])
+    return None
+
+
 def check_pkesk_selection(rep, prog, rid):
     """PGPKey.decrypt recovers the session key from a packet selected among message._sessionkeys by class, algorithm AND key id.
-    The selecting condition is read as a boolean function (truth table over its atoms), not as text."""
+    The selecting condition (comprehension filters or the decisions of a selection loop) is read as a boolean function (truth table
+    over its atoms), not as text."""
     from . import taint
     fi = prog.method('pgpy.pgp', 'PGPKey', 'decrypt')
-    outs = taint.run_roles(prog, fi, ('self', 'message'), bind={'message.is_encrypted': Const(True)},
-                           axioms={'(self.fingerprint.keyid not in message.encrypters)': False,
-                                   '(self.fingerprint.keyid in message.encrypters)': True})
+    outs = taint.run_roles(prog, fi, ('self', 'message'), bind={'message.is_encrypted': Const(True)})
     seen = 0
     for s in outs:
         if s.raised:
             continue
         dsk = [c for c in s.calls if c[0].endswith('.decrypt_sk')]
         if not dsk:
-            rep.violation(rid, 'PGPKey.decrypt', 'no decrypt_sk call', 'the key never recovers a session key', where=fi.where)
-            continue
+            continue                # delegation to a subkey / early return: not the path that selects a packet
         seen += 1
         t = dsk[0][0][:-len('.decrypt_sk')]
-        m = re.search(r'EACH\((\$[\d.]+) in message\._sessionkeys(?: if (.*))?;\1\)', t)
-        if m is None:
-            if 'message._sessionkeys' in t or '$' in t:
-                raise AnalysisError('PGPKey.decrypt: the session-key packet is selected in a way the rule cannot read: %s' % t[:160])
+        sel = _selection_condition(s, t, dsk[0])
+        if sel is None:
             rep.violation(rid, 'PGPKey.decrypt', 'session-key packet selection %s' % t[:140],
                           'the packet used must be selected from the message\'s session-key packets by key id and algorithm', where=fi.where, found=t)
             continue
-        v = m.group(1)
-        conds = [c for c in taint._split_top(m.group(2) or 'True', ' if ')]
-        fn = taint.BoolFn('(' + ') and ('.join(conds) + ')')
+        v, cond = sel
+        fn = taint.BoolFn(cond)
         need = [taint.BoolFn.isinst(v, 'PKESessionKey'), taint.BoolFn.eq(v + '.pkalg', 'self.key_algorithm'),
                 taint.BoolFn.eq(v + '.encrypter', 'self.fingerprint.keyid')]
         alt = [taint.BoolFn.isinst(v, 'PKESessionKeyV3')] + need[1:]
         ok = any(all(fn.implies(a) for a in atoms) and fn.holds_when(atoms) for atoms in (need, alt))
-        rep.check(ok, rid, 'PGPKey.decrypt', 'session-key packet selection %s' % t[:140],
+        rep.check(ok, rid, 'PGPKey.decrypt', 'session-key packet selection %s' % cond[:140],
                   'with several recipients the packet used must be the one addressed to this key id (and algorithm)', where=fi.where,
                   expected='isinstance(pk, PKESessionKey) and pk.pkalg == self.key_algorithm and pk.encrypter == self.fingerprint.keyid',
-                  found=t)
+                  found=cond)
     if not seen:
-        raise AnalysisError('PGPKey.decrypt: no returning path that recovers a session key')
+        rep.violation(rid, 'PGPKey.decrypt', 'no decrypt_sk call', 'the key never recovers a session key', where=fi.where)
 
 
 def check_hash_object(rep, prog, rid, construct, text, S, where, scenario=None):
